@@ -124,5 +124,63 @@ Proof.
   unfold Q2R'. cbn. unfold Q2R. cbn. lra.
 Qed.
 
+(* LogNormalCDF.backward as a vector-Jacobian product: for EVERY upstream gradient g (either sign) the returned value
+   is g * phi(z) / P *)
+Lemma lncdf_vjp_identity (g z P : R) : 0 < P -> lncdf_vjp_R g z (ln P) = g * (std_normal_pdf z / P).
+Proof. intros HP. unfold lncdf_vjp_R. rewrite lncdf_backward_identity by exact HP. reflexivity. Qed.
+Lemma lncdf_vjp_neg (g z lp : R) : lncdf_vjp_R (- g) z lp = - lncdf_vjp_R g z lp.
+Proof. unfold lncdf_vjp_R. ring. Qed.
+
+(* _NgdInterpTerms.backward, one inducing value and one data point: the three returned components are the partial
+   derivatives of  gm * mean + gv * var + gk * KL  with respect to the interpolation term and to the EXPECTATION
+   parameters, for every upstream (gm, gv, gk), at every point with S = e2 - e1^2 > 0.  The saved tensors are
+   interp_mean = k e1, natural_vec = e1 / S, prec = 1 / S, sk = S k, m = e1. *)
+Ltac unfoldCiq :=
+  unfold ciq1_obj_R, ciq1_kl_R, ciq1_bwd_k, ciq1_bwd_eta1, ciq1_bwd_eta2, ciq1_mean, ciq1_var, ciq1_m, ciq1_sk, ciq1_prec,
+         t2, tsq;
+  cbn [tnat tadd tsub tmul tdiv tneg t0 t1 TR]; change (@tc TR) with R in *.
+Lemma ciq1_backward_eta1 (gm gv gk k e1 e2 : R) : 0 < e2 - e1 * e1 ->
+  is_derive (fun e1' => ciq1_obj_R gm gv gk k e1' e2) e1
+            (@ciq1_bwd_eta1 TR gm gv gk k (k * e1) (e1 / (e2 - e1 * e1))).
+Proof.
+  intros H. unfoldCiq. auto_derive; [repeat split; try exact I; lra|].
+  replace (e2 + - (e1 * e1)) with (e2 - e1 * e1) by ring.
+  field. lra.
+Qed.
+Lemma ciq1_backward_eta2 (gm gv gk k e1 e2 : R) : 0 < e2 - e1 * e1 ->
+  is_derive (fun e2' => ciq1_obj_R gm gv gk k e1 e2') e2
+            (@ciq1_bwd_eta2 TR gv gk k (1 / (e2 - e1 * e1))).
+Proof.
+  intros H. unfoldCiq. auto_derive; [repeat split; try exact I; lra|].
+  replace (e2 + - (e1 * e1)) with (e2 - e1 * e1) by ring.
+  field. lra.
+Qed.
+Lemma ciq1_backward_k (gm gv gk k e1 e2 : R) :
+  is_derive (fun k' => ciq1_obj_R gm gv gk k' e1 e2) k
+            (@ciq1_bwd_k TR gm gv ((e2 - e1 * e1) * k) e1).
+Proof.
+  unfoldCiq. auto_derive; [exact I|]. ring.
+Qed.
+(* the forward pass saves exactly those quantities: with S = 1/(-2 theta2), m = S theta1 the expectation parameters are
+   (m, m^2 + S), and interp_mean = k m, natural_vec = m / S, prec = 1 / S, sk = S k *)
+Lemma ciq1_forward_consistent (k th1 th2 : R) : th2 < 0 ->
+  let S := 1 / (- (1 + 1) * th2) in let m := @ciq1_m TR th1 th2 in
+  0 < (m * m + S) - m * m /\ @ciq1_mean TR k th1 th2 = k * m /\ th1 = m / ((m * m + S) - m * m)
+  /\ @ciq1_prec TR th2 = 1 / ((m * m + S) - m * m) /\ @ciq1_sk TR k th2 = ((m * m + S) - m * m) * k
+  /\ @ciq1_var TR k th2 = k * k * ((m * m + S) - m * m).
+Proof.
+  intros H S m. unfold m, S. unfoldCiq.
+  assert (Hd : - (1 + 1) * th2 <> 0) by nra.
+  assert (HS : 0 < 1 / (- (1 + 1) * th2)) by (apply Rdiv_lt_0_compat; [lra|nra]).
+  set (d := - (1 + 1) * th2) in *.
+  assert (E : th1 / d * (th1 / d) + 1 / d - th1 / d * (th1 / d) = 1 / d) by ring.
+  rewrite E.
+  split; [exact HS|].
+  split; [field; exact Hd|].
+  split; [field; exact Hd|].
+  split; [field; exact Hd|].
+  split; field; exact Hd.
+Qed.
+
 Lemma ex_natural_point : 0 < 2 - 1 * 1.
 Proof. lra. Qed.
